@@ -6,7 +6,13 @@ def run():
     t = core.tier() == "thorough"
     return macfam.run(PID, [[f"hist={40 if t else 5}", f"steps={70 if t else 45}", "profile=hostile"],
                             # single-channel walk: every channel index once the only enabled one (ascending and descending)
-                            ["hist=2", "profile=onlych"] + ([] if t else ["fronts=nb,async"])],
+                            ["hist=2", "profile=onlych"] + ([] if t else ["fronts=nb,async"]),
+                            # the nb state machine under free-form event sequences: every sequence of 4 (thorough: 5) events
+                            # that starts with a request, over an 11-event alphabet, plus every pair of events from Idle
+                            ["cmd=nbwalk"],
+                            # the async front-end (with and without Class C) under an enumerated alphabet of procedures:
+                            # (send | join) x RX1 outcome x RX2 outcome x radio fault position, every one followed by a second procedure
+                            ["cmd=awalk"]],
         "device panicked, hung or left the specification", 
         "seeded random histories over 9 regions x {nb, async, async+ClassC} x {OTAA, ABP}: joins (JoinAccepts with every DLSettings/RxDelay/CFList kind incl. RFU), sends, downlinks of every class (authentic with MAC-command streams whose fields are drawn from boundary+random sets, replays, forged, foreign, random bytes, oversize), radio faults; every call runs under catch_unwind and an RNG draw budget; distinct = distinct (region/front, event kind, response, frame classes, pending length) tuples",
         macfam.COMMON_ASSUMPTIONS + ["a panic or an exhausted draw budget (>10000 draws in one call) is an event no specification action matches, except the listed open finding"])
